@@ -64,28 +64,46 @@ fn check_hash(s: &str) -> CaseResult {
     Ok(())
 }
 
-fn ref_het(name: &str, bits: u32) -> (u64, u8) {
-    let folded = refcrypt::fold(name.as_bytes());
-    // StormLib seeds: primary = 1, secondary = 2; hashlittle2(key, &secondary, &primary)
+/// The HET name hash as StormLib computes it (`HashStringJenkins` + the HET masks): the name is
+/// folded to LOWER case with '/' → '\\' (`AsciiToLowerTable`; the classic MPQ hash folds to
+/// upper case, this one does not), hashed with `hashlittle2(name, &secondary = 2, &primary = 1)`,
+/// masked to the table's hash width and or-ed with the top bit of that width — for every width,
+/// 64 included. `upper` gives the same computation with upper-case folding (the library's
+/// deviation, kept as a separate, listed finding so that any other deviation is still seen).
+fn ref_het_folded(name: &str, bits: u32, upper: bool) -> (u64, u8) {
+    let folded: Vec<u8> = name
+        .as_bytes()
+        .iter()
+        .map(|&b| if b == b'/' { b'\\' } else if upper { b.to_ascii_uppercase() } else { b.to_ascii_lowercase() })
+        .collect();
     let (c, b) = lookup3::hashlittle2(&folded, 2, 1);
     let full = ((b as u64) << 32) | c as u64;
-    let (and_mask, or_mask) = if bits < 64 {
-        ((1u64 << bits) - 1, 1u64 << (bits - 1))
-    } else {
-        (u64::MAX, 0)
-    };
+    let and_mask = if bits < 64 { (1u64 << bits) - 1 } else { u64::MAX };
+    let or_mask = 1u64 << (bits - 1);
     let h = (full & and_mask) | or_mask;
-    let nh1 = if bits < 64 {
-        (h >> (bits - 8)) as u8
-    } else {
-        (h >> 56) as u8
-    };
-    (h, nh1)
+    (h, (h >> (bits - 8)) as u8)
+}
+
+fn ref_het(name: &str, bits: u32) -> (u64, u8) {
+    ref_het_folded(name, bits, false)
 }
 
 fn check_jenkins(s: &str, bits: u32) -> CaseResult {
     let (h, n1) = het_hash(s, bits);
     let (wh, wn1) = ref_het(s, bits);
+    if (h, n1) != (wh, wn1) && (h, n1) == ref_het_folded(s, bits, true) {
+        // exactly the upper-case variant: the listed deviation, nothing else
+        vfail!(
+            "het-hash-folds-name-to-upper-case",
+            "het_hash({:?},{}) = ({:#x},{:#x}) is hashlittle2 of the UPPER-cased name; the MPQ HET hash (StormLib HashStringJenkins) folds to lower case: ({:#x},{:#x})",
+            s,
+            bits,
+            h,
+            n1,
+            wh,
+            wn1
+        );
+    }
     if (h, n1) != (wh, wn1) {
         vfail!(
             "het-hash-differs-from-lookup3",
